@@ -416,7 +416,11 @@ fn child_main(case: &Case) -> ! {
     registry::reset();
     dispatch(case, &mut || ralloc::arm(Some(k)));
     let n = ralloc::armed_allocs();
-    let _ = ralloc::disarm();
+    let events = ralloc::disarm();
+    // the operation came back although one of its allocation requests was answered with null
+    if let Some(ralloc::Ev::Failed { size, align }) = events.iter().find(|e| matches!(e, ralloc::Ev::Failed { .. })) {
+        println!("CARRIED-ON-AFTER-FAILED-ALLOCATION size={size} align={align}");
+    }
     println!("COMPLETED allocs={n}");
     std::process::exit(0);
 }
@@ -432,6 +436,12 @@ fn run_child(case: &Case) -> Result<Option<u64>, String> {
     let stdout = String::from_utf8_lossy(&out.stdout);
     let stderr = String::from_utf8_lossy(&out.stderr);
     if out.status.success() {
+        if let Some(l) = stdout.lines().find(|l| l.starts_with("CARRIED-ON-AFTER-FAILED-ALLOCATION")) {
+            return Err(format!(
+                "C16/alloc-failure-path: the operation returned normally although its allocation request ({}) was answered with null; an allocation failure must end through the standard allocation-error path",
+                &l["CARRIED-ON-AFTER-FAILED-ALLOCATION ".len()..]
+            ));
+        }
         if let Some(l) = stdout.lines().find(|l| l.starts_with("COMPLETED allocs=")) {
             return Ok(l["COMPLETED allocs=".len()..].parse().ok());
         }
@@ -593,7 +603,7 @@ pub fn main() {
             level: "fault_enumeration",
             rule: "operation instance = (alloc-feature operation, N in {0,1,2,3,7,8,16,33,1024}, element kind u8 / u64 / () / GenericArray<u32,U0> (zero-sized by length) / drop-tracked with heap payload / 32-byte-aligned). Operations: TryFrom<Vec> and TryFrom<Box<[T]>> (lengths N-1, N, N+1; spare capacity 0/1/5), From<GenericArray> for Vec / Box<[T]>, Box::new, into_boxed_slice, into_vec (+ push to force a realloc of the handed-over block), try_from_boxed_slice, try_from_vec, Box<GenericArray>::into_iter partially consumed, try_boxed_from_iter / boxed collect (N-1, N, N+1 items, exact or unknown hint), default_boxed, boxed generate, box_arr! repeat form, boxed map / zip / fold, direct inverted_zip / inverted_zip2 calls on a boxed operand, boxed map to a same-size lower-alignment type, Box clone; boxed collect and boxed map of arrays of 1 MiB, 1 MiB + 1 element, 1.5 MiB and 3 MiB from exact and inexact sources. \
                    For each instance: a clean run with the whole life of inputs and results inside the recorded allocator window; a panic injected at every invocation of caller code (closure, Default, Clone, next()); an allocation failure injected at every allocation the operation performs (child process, k = 0,1,... until the operation completes). \
-                   Oracle: no zero-size request; every dealloc/realloc carries the size and alignment the block was requested with; no block freed twice; no block allocated by the case live once all values are gone (also after the injected panic); on allocation failure the child must die through Rust's standard path (SIGABRT with 'memory allocation of N bytes failed'). \
+                   Oracle: no zero-size request; every dealloc/realloc carries the size and alignment the block was requested with; no block freed twice; no block allocated by the case live once all values are gone (also after the injected panic); on allocation failure the child must die through Rust's standard path (SIGABRT with 'memory allocation of N bytes failed'); an operation that returns normally (Ok or Err) after one of its requests was answered with null is a violation. \
                    non-trivial = at least one allocation happened and a panic fired, or an allocation failure was injected; distinct = distinct (instance, fault)",
             exhaustive: false,
             assumptions: vec![
